@@ -35,21 +35,23 @@ PROPS = {
         "assumptions": DEFS_BY_CODE,
     },
     "C05": {
-        "level": "proof", "prove": True, "ground": ["noOperatorPrefix", "idsAreIDCH"],
+        "level": "proof", "prove": True, "ground": ["noOperatorPrefix", "idsAreIDCH", "foldUnique"],
         "bounded": {"search": "C05", "quick": "6s", "thorough": "120s",
-                    "what": "classification of single lexemes (which character runs are which token, list lookups with -only / -or-later / '+' folding) is not under a functional contract; it is compared with a reference lexer written from the property text on all strings of <= 4 lexemes over the alphabet of the property, loose and tight spacing (BOUNDED, not counted as proved)"},
+                    "what": "how the regexp-based readers cut the text into lexemes (DocumentRef-/LicenseRef- names, maximal id runs, skipping of spaces) and how scan strings the tokens together is not under a functional contract; the whole scanner is compared with a reference lexer written from the property text on all strings of <= 4 lexemes over the alphabet of the property, loose and tight spacing (BOUNDED, not counted as proved)"},
         "assumptions": DEFS_BY_CODE + [
             "token level (proved): parse succeeds on a token sequence iff the reference grammar derives exactly that sequence, and the tree is the grammar's tree",
-            "lexical level (proved): the scanner's buffer/offset relation - no character of the caller's string is dropped or invented by the -or-later rewrite; (bounded): the classification of each lexeme",
+            "lexical level (proved): the scanner's buffer/offset relation - no character of the caller's string is dropped or invented by the -or-later rewrite; operator recognition (first of WITH AND OR ( ) : + that prefixes the text, '+' after a space is an error); id classification and normalisation (a lexeme is accepted iff it is a valid id in the sense of the property, and the token carries the canonical list entry it denotes, with the documented -only / -or-later / '+' rules and their effect on the cursor)",
+            "lexical level (bounded): cutting the text into lexemes by the regexp readers and the assembly of the token sequence in scan. A functional contract for this part (token sequence as a recursive spec function of the text) was written and proved once, but the string obligations were not robust (solver times between 1 s and > 60 s under reordering), so it is not registered; see DESIGN.md 11.6",
+            "table hypotheses used as axioms by the normalisation contracts: no two entries of a list are equal up to case (ground: foldUnique)",
             "regexp FindStringIndex on the two literal class patterns returns the leftmost-longest match (assumed contract)",
         ],
     },
     "C06": {
         "level": "proof", "prove": True, "ground": [],
         "bounded": {"search": "C06", "quick": "8s", "thorough": "120s",
-                    "what": "'no term is invented', 'every returned string extracts to itself' and 'the returned list satisfies the expression' are not under contract; they are checked by execution against the reference oracle on enumerated expressions (BOUNDED)"},
+                    "what": "'every returned string extracts to itself' and 'the returned list satisfies the expression' relate two API calls and are not under contract; they are checked by execution against the reference oracle on enumerated expressions (BOUNDED)"},
         "assumptions": DEFS_BY_CODE + [
-            "proved: no term of the expression is missing from the result (for an arbitrary leaf x: leafOf(tree, x) ==> the canonical string of x occurs in the result) and the result is duplicate-free",
+            "proved: no term of the expression is missing from the result (for every leaf x of the tree the canonical string of x occurs in the result), none is invented (every returned string is the canonical string of some leaf of the tree), and the result is duplicate-free",
             "canonical spelling: the returned string of a term is reconT of its tree (contract of reconstructedLicenseString); that the id inside is the list's spelling is C09",
         ],
     },
